@@ -19,8 +19,7 @@ variable {α : Type}
 
 /-! ### matrix primitives (`@`, `.T`, `*`) -/
 
-/-- `np.dot` of two 1-d arrays. -/
-def dot [Add α] [Mul α] [Zero α] (u v : List α) : α := (List.zipWith (· * ·) u v).sum
+-- `dot` (`u @ v`) is defined in Core/Arr.lean
 
 /-- `A @ B.T`. -/
 def matMulT [Add α] [Mul α] [Zero α] (A B : Mat α) : Mat α :=
